@@ -114,3 +114,19 @@ Theorem C05_reentrant_refines_flat :
     no_acts ev -> forall ts, sim c (trigger_event mc ev c ts) (rtrigger_event mc ev nested c ts).
 Proof. exact rtrigger_event_refines. Qed.
 Print Assumptions C05_reentrant_refines_flat.
+
+(* ---------- the hierarchical instance ---------- *)
+(* The theorems above hold for every step function; spelled out for the one the correspondence check
+   runs against the queued hierarchical classes (HsmQueueIO.hqstep = Hsm.trigger_event on the
+   triggered model's configuration): a trigger arriving at an idle queued hierarchical machine is
+   processed first, then the events its callbacks deferred, in arrival order, none twice, and the
+   queue ends empty - whatever the state tree, the parallel regions and the callbacks' programs. *)
+From M Require Hsm HsmQueueIO.
+Theorem C05_hsm_top :
+  forall (hm : Hsm.hmachine) (ev : env) fuel (w : HsmQueueIO.hworld) s m e a bs r w' s',
+    qs_queue s = [] ->
+    top_trigger (HsmQueueIO.hqstep hm ev) HsmQueueIO.hnested_payload fuel w s m e a = Some (bs, r, w', s') ->
+    within (qs_next s) (qs_next s') (bids bs) /\ NoDup (bids bs) /\ qs_queue s' = [] /\
+    (exists b rest, bs = b :: rest /\ b_entry b = mkQ (qs_next s) m e a).
+Proof. intros hm ev. exact (top_trigger_fifo (HsmQueueIO.hqstep hm ev) HsmQueueIO.hnested_payload). Qed.
+Print Assumptions C05_hsm_top.
